@@ -1,4 +1,5 @@
 import BarterModel.Driver.Common
+import BarterModel.Model.Position
 import BarterModel.Model.TearSheet
 /-!
 Line-protocol driver for C16.
@@ -45,6 +46,23 @@ def obs (s : TradingSummary) : List String :=
 inductive Op where
   | init (n m : Nat) (mode : Mode)
   | ev (e : Ev) (closed : Option (Nat × Closed)) (needs : Mode)
+  /-- engine mode: a position is opened, FLIPPED by one opposite fill of twice its size (which closes it
+  and opens the opposite position in the same step) and the remainder is closed at the same price: two
+  closed positions, the instrument ends flat -/
+  | flip (i : Nat) (c1 c2 : Closed)
+
+/-- the closed positions of `flip`, computed with the position model of C02 (`PositionManager.update`) -/
+def flipClosed (i : Nat) (long : Bool) (entry qty exit feeIn feeOut : Rat) : Option (Closed × Closed) :=
+  let side : BarterModel.Position.Side := if long then .buy else .sell
+  let opp : BarterModel.Position.Side := if long then .sell else .buy
+  let pm0 := BarterModel.Position.PositionManager.init
+  let (pm1, _) := pm0.update ⟨0, i, 0, side, entry, qty, feeIn⟩
+  let (pm2, x1) := pm1.update ⟨1, i, 1, opp, exit, 2 * qty, feeOut⟩
+  let (_, x2) := pm2.update ⟨2, i, 2, side, exit, qty, 0⟩
+  match x1, x2 with
+  | some a, some b =>
+    some (⟨a.pnlRealised, a.priceEntryAverage, a.quantityAbsMax⟩, ⟨b.pnlRealised, b.priceEntryAverage, b.quantityAbsMax⟩)
+  | _, _ => none
 
 def parseOp : List String → Option Op
   | ["init", n, m, mode] =>
@@ -63,6 +81,12 @@ def parseOp : List String → Option Op
     | some i, some long, some entry, some qty, some exit, some feeIn, some feeOut =>
       let c := Closed.ofRoundTrip long entry qty exit feeIn feeOut
       some (.ev (.position i c) (some (i, c)) .engine)
+    | _, _, _, _, _, _, _ => none
+  | ["flip", i, side, entry, qty, exit, feeIn, feeOut] =>
+    match i.toNat?, (if side == "B" then some true else if side == "S" then some false else none),
+        parseRat? entry, parseRat? qty, parseRat? exit, parseRat? feeIn, parseRat? feeOut with
+    | some i, some long, some entry, some qty, some exit, some feeIn, some feeOut =>
+      (flipClosed i long entry qty exit feeIn feeOut).map fun (c1, c2) => .flip i c1 c2
     | _, _, _, _, _, _, _ => none
   | ["bal", a, t, total, free] =>
     match a.toNat?, t.toInt?, parseRat? total, parseRat? free with
@@ -118,6 +142,14 @@ def model : Drv MSt where
         if evPanics n m ev then (s, ["panic"]) else
         let e' := e.step ev
         (.engine n m e', fmtClosed closed ++ obs (TradingSummaryGenerator.init e').generate)
+    | some (.flip i c1 c2) =>
+      match s with
+      | .engine n m e =>
+        if evPanics n m (.position i c1) || evPanics n m (.position i c2) then (s, ["panic"]) else
+        let e' := (e.step (.position i c1)).step (.position i c2)
+        (.engine n m e', fmtClosed (some (i, c1)) ++ fmtClosed (some (i, c2)) ++
+          obs (TradingSummaryGenerator.init e').generate)
+      | _ => (s, ["bad-op"])
 
 /-! ### abstract spec: recomputed from the whole history after every op -/
 
@@ -148,6 +180,12 @@ def spec : Drv SSt where
       if !isBal ev && needs != s.mode then (s, ["bad-op"]) else
       if evPanics s.n s.m ev then (s, ["panic"]) else
       let s' := { s with evs := s.evs ++ [ev] }
+      (s', specObs s')
+    | some (.flip i c1 c2) =>
+      -- both legs are closed positions of instrument i: the tear sheet is that of the whole history
+      if !s.started || s.mode != .engine then (s, ["bad-op"]) else
+      if evPanics s.n s.m (.position i c1) || evPanics s.n s.m (.position i c2) then (s, ["panic"]) else
+      let s' := { s with evs := s.evs ++ [.position i c1, .position i c2] }
       (s', specObs s')
 
 end BarterModel.Driver.C16
